@@ -121,8 +121,11 @@ func stripFraming(h http.Header) http.Header {
 }
 
 func headOfReq(r *http.Request, readBody bool) head {
+	hdr := stripFraming(r.Header)
+	// a Host key in a request's header map is never sent (net/http writes the Host field)
+	delete(hdr, "Host")
 	h := head{line: fmt.Sprintf("%s %s HTTP/%d.%d", r.Method, r.URL, r.ProtoMajor, r.ProtoMinor), host: r.Host,
-		cl: r.ContentLength, te: strings.Join(r.TransferEncoding, ","), hdr: msggen.SortedKV(stripFraming(r.Header))}
+		cl: r.ContentLength, te: strings.Join(r.TransferEncoding, ","), hdr: msggen.SortedKV(hdr)}
 	if readBody {
 		if r.Body != nil {
 			b, err := io.ReadAll(r.Body)
